@@ -23,17 +23,23 @@ RULE = (
     "with another name in play, or with an internal temporary"
 )
 SPACE = {
-    "quick": "25 roles x 30 pool names (every single assignment) + 46 related role pairs x 42 ordered pairs of 7 substring/prefix/case-related names; 7 battery sections, only the sections that use a role are re-run",
+    "quick": "25 roles x 44 pool names (every single assignment) + 46 related role pairs x 42 ordered pairs of 7 substring/prefix/case-related names; 7 battery sections, only the sections that use a role are re-run",
     "thorough": "all role pairs within a section x the 42 ordered name pairs",
 }
 BOUNDS = {"quick": {}, "thorough": {}}
 ASSUMPTIONS = [
     "the five position words themselves are excluded as names (as the property says)",
     "accept/reject is compared as returned-vs-raised; exception types and messages may mention names",
+    "a dimension called 'drop' is not exercised on the face-connected path: xarray's own DataArray.squeeze() fails for it",
 ]
 
 POOL = ["c", "e", "n", "t", "r", "l", "f", "i", "o", "u", "x", "g", "T", "xleft", "center1", "inner_x", "outerspace", "cent", "xx", "xc2",
-        "XC", "Xc", "abcdefghijkl", "temp_unique", "temp_dim_target", "ydummy", "remapped", "dim_0", "TRANSFORMED_DIMENSION", "Xdummy"]
+        "XC", "Xc", "abcdefghijkl", "temp_unique", "temp_dim_target", "ydummy", "remapped", "dim_0", "TRANSFORMED_DIMENSION", "Xdummy",
+        # spelled like a parameter of the xarray / numpy / dask functions the library calls, or like one of its own keyword arguments
+        "mode", "constant_values", "pad_width", "dim", "axis", "keep_attrs", "drop", "name", "dims", "kwargs", "boundary", "to", "depth", "func"]
+# DataArray.squeeze() of the pinned xarray fails for a dimension called "drop" (its own keyword); the face-connected
+# padding path relies on it, so that one (name, section) combination is outside what xgcm can be held to
+XARRAY_CANNOT = {("drop", "faces")}
 PAIRPOOL = ["x", "xx", "xc", "xc2", "XC", "Xc", "cx"]
 
 CANON = dict(
@@ -400,6 +406,9 @@ def run_assign(rec, assign, sections=None):
         return
     secs = sorted(set(s for r in assign for s in ROLE_SECTIONS[r])) if sections is None else sections
     for sec in secs:
+        if any((v, sec) in XARRAY_CANNOT for k, v in assign.items() if k.startswith("dim_")):
+            rec.counters["skipped:name xarray itself cannot handle on this path"] += 1
+            continue
         # every role of the assignment must be used by the section, otherwise it was covered by a smaller assignment
         if sections is None and not all(sec in ROLE_SECTIONS[r] for r in assign):
             continue
